@@ -31,12 +31,12 @@ func makeSingleTrackSegments(segmenter *Segmenter, parsedMp4 *mp4.File, rs io.Re
 			startSampleNr, endSampleNr := tr.segments[segNr-1].startNr, tr.segments[segNr-1].endNr
 			fmt.Printf("%s: %d-%d\n", tr.trackType, startSampleNr, endSampleNr)
 			fullSamples, err := segmenter.GetFullSamplesForInterval(parsedMp4, tr, startSampleNr, endSampleNr, rs)
+			if err != nil {
+				return err
+			}
 			if len(fullSamples) == 0 {
 				fmt.Printf("No more samples for %s\n", mediaType)
 				continue
-			}
-			if err != nil {
-				return err
 			}
 			seg := mp4.NewMediaSegment()
 			frag, err := mp4.CreateFragment(uint32(segNr), tr.trackID)
@@ -89,12 +89,12 @@ func makeSingleTrackSegmentsLazyWrite(segmenter *Segmenter, parsedMp4 *mp4.File,
 			startSampleNr, endSampleNr := tr.segments[segNr-1].startNr, tr.segments[segNr-1].endNr
 			fmt.Printf("%s: %d-%d\n", tr.trackType, startSampleNr, endSampleNr)
 			samples, err := segmenter.GetSamplesForInterval(parsedMp4, tr.inTrak, startSampleNr, endSampleNr)
+			if err != nil {
+				return err
+			}
 			if len(samples) == 0 {
 				fmt.Printf("No more samples for %s\n", mediaType)
 				continue
-			}
-			if err != nil {
-				return err
 			}
 			seg := mp4.NewMediaSegment()
 			frag, err := mp4.CreateFragment(uint32(segNr), tr.trackID)
@@ -163,11 +163,11 @@ func makeMultiTrackSegments(segmenter *Segmenter, parsedMp4 *mp4.File, rs io.Rea
 			startSampleNr, endSampleNr := tr.segments[segNr-1].startNr, tr.segments[segNr-1].endNr
 			fmt.Printf("%s: %d-%d\n", tr.trackType, startSampleNr, endSampleNr)
 			fullSamples, err := segmenter.GetFullSamplesForInterval(parsedMp4, tr, startSampleNr, endSampleNr, rs)
-			if len(fullSamples) == 0 {
-				continue
-			}
 			if err != nil {
 				return err
+			}
+			if len(fullSamples) == 0 {
+				continue
 			}
 			for _, sample := range fullSamples {
 				err = frag.AddFullSampleToTrack(sample, tr.trackID)
